@@ -7,7 +7,7 @@
    The lists A_of / MANAGED / hidden live in Spec/Passthrough.v and are compared with the store sites of the Rust source on every
    run (tools/props/C07.py, inventory).  "[Service] NotifyAccess is the only user entry a non-oneshot container may lose" appears
    here in the form "the managed keys are the only exempt ones" (for a container: KillMode when absent, Type/NotifyAccess, SyslogIdentifier). *)
-From QV Require Import Model.Base Generated.Tables Model.Quote Model.Unit Model.Parser Model.Names Model.Convert Model.Process Spec.Passthrough Proofs.C07 Proofs.C07run Proofs.C07kept.
+From QV Require Import Model.Base Generated.Tables Model.Quote Model.Unit Model.Parser Model.Names Model.Convert Model.Process Spec.Passthrough Proofs.C07 Proofs.C07run Proofs.C07kept Model.ProcessD Proofs.C06trees.
 
 (* add(sec,k,v): every (section, key) keeps its values in order; only (sec,k) gains one value, at the end *)
 Theorem C07_add_keeps_order : forall u sec k v sec' k',
@@ -152,3 +152,12 @@ Theorem C07_pinned_refuted :
   killmode_of (convert_one (s2l "/usr/bin/podman") (fun _ => false) false true demo_unit (s2l "/d/a.container") TContainer demo_tbl) = Some [s2l "mixed"]
   /\ killmode_of (convert_one (s2l "/usr/bin/podman") (fun _ => false) true true demo_unit (s2l "/d/a.container") TContainer demo_tbl) = Some [s2l "control-group"].
 Proof. exact (conj killmode_pinned_refuted killmode_fixed_kept). Qed.
+
+(* the run over unit files WITH their drop-ins (Model/ProcessD.v, names derived after merging): the same pass-through, of the MERGED unit --
+   what the user wrote in the main file and in the drop-ins, in merge order, reaches the service untouched *)
+Theorem C07_every_generated_service_passes_through_with_dropins : forall podman exists_path kill_fixed mount_nl (files : list (str * str * list str)) path svc sp,
+  In (path, ROk svc sp) (snd (process_trees podman exists_path kill_fixed mount_nl true files)) ->
+  exists main ds u0 t, In (path, main, ds) files /\ parse_unit main = Some u0 /\
+    let u := fst (merge_dropins u0 ds) in
+    PassThrough (A_of t) MANAGED t u svc /\ OwnKept t u svc.
+Proof. exact trees_every_generated_service_passes_through. Qed.
